@@ -113,6 +113,10 @@ type Reg struct {
 	// this is only used where nothing is constructed (Build must fail).
 	HasCtorOf bool
 	CtorOf    int
+	// IsTwin: the function value has exactly the signature of registration TwinOf's
+	// (another function value, another lifetime, another group or name).
+	IsTwin bool
+	TwinOf int
 	// After: ids of registrations whose calls must come before this one (it
 	// registers an identity again that one of them registered and removed).
 	After []int
@@ -190,6 +194,9 @@ func (r Reg) String() string {
 	if r.HasCtorOf {
 		fmt.Fprintf(&sb, " same-function-as=r%d", r.CtorOf)
 	}
+	if r.IsTwin {
+		fmt.Fprintf(&sb, " (same signature as r%d)", r.TwinOf)
+	}
 	if len(r.After) > 0 {
 		fmt.Fprintf(&sb, " (registered after r%d removed it)", r.After[0])
 	}
@@ -232,12 +239,34 @@ type Config struct {
 	// the remaining registrations are added and the collection is built for
 	// real. Building is not supposed to leave anything behind in the collection.
 	PreBuild int
+	// Ghosts are registrations that come and go while the collection is being
+	// assembled: each is registered before the At-th registration call and
+	// removed again (Remove / RemoveKeyed) after Span further calls - at the
+	// latest before Build. They are no part of the model: a later Build must
+	// behave as if they had never existed, and their constructors never run.
+	Ghosts []Ghost
+}
+
+// Ghost is a registration that is removed again before Build (see Config.Ghosts).
+type Ghost struct {
+	T    int    // a concrete type id
+	Key  string // "" only for NeverType, which nothing else provides
+	Life int
+	At   int // registered before the At-th registration call (0-based)
+	Span int // removed after Span further registration calls
+}
+
+func (g Ghost) String() string {
+	return fmt.Sprintf("ghost(%s %s, added before call %d, removed %d calls later)", []string{"Sing", "Scop", "Tran"}[g.Life], Ident{T: g.T, Key: g.Key}, g.At, g.Span)
 }
 
 func (c *Config) String() string {
 	parts := make([]string, len(c.Regs))
 	for i, r := range c.Regs {
 		parts[i] = r.String()
+	}
+	for _, g := range c.Ghosts {
+		parts = append(parts, g.String())
 	}
 	if c.PreBuild > 0 {
 		return fmt.Sprintf("[built once after the first %d] ", c.PreBuild) + strings.Join(parts, " ; ")
